@@ -476,3 +476,43 @@ func HarnessC19Special() {
 	verif.ObserveBool("ok", err == nil)
 	verif.Assert("no-hang", !envBlocked())
 }
+
+// HarnessC20Big: file sizes as symbolic 64-bit values. A file in the tree and a file outside it
+// (reached through a link, copied in when dereferencing) are sparse: a byte of data followed by a
+// hole of arbitrary length up to 64 MiB. The size Pack reports is the number of content bytes stored,
+// which is also the sum of the sizes in the headers.
+func HarnessC20Big() {
+	packWorld()
+	pad1 := int64(verif.Int("pad.in-tree"))
+	pad2 := int64(verif.Int("pad.external"))
+	verif.Assume(pad1 >= 0 && pad1 <= 1<<26 && pad2 >= 0 && pad2 <= 1<<26)
+	envWriteSparse(packSrc+"/f", 0644, 1000, "D", pad1)
+	envWriteFile(packSrc+"/g", 0644, 1000, "G")
+	envWriteSparse("/w/big", 0600, 1000, "B", pad2)
+	envSymlink(packSrc+"/l", "../big", 1000)
+	p := packOptions()
+	envBaseline()
+	meta, err := p.Pack(packSrc, envWriter())
+	if !p.dereference {
+		verif.Assert("C05-out-of-tree-link-is-refused", err != nil)
+		return
+	}
+	verif.Assert("C20-big-files-pack", err == nil)
+	if err != nil {
+		return
+	}
+	verif.Reach("big-packed")
+	written := envTarWritten()
+	verif.Assert("C20-file-count", len(meta.Files) == len(written))
+	var sum, sizeSum int64
+	for i, e := range written {
+		if i < len(meta.Files) {
+			verif.Assert("C20-file-name-in-order", meta.Files[i] == e.Name)
+		}
+		sum += int64(len(e.Body)) + e.Pad
+		sizeSum += e.Size
+	}
+	verif.Assert("C20-size-is-sum-of-bodies", meta.Size == sum)
+	verif.Assert("C20-size-is-sum-of-sizes-recorded-in-headers", meta.Size == sizeSum)
+	verif.Assert("C20-every-content-byte-is-stored", sum == 1+pad1+1+1+pad2)
+}
